@@ -83,7 +83,7 @@ type EvalCtx struct {
 	st      *State
 	old     *State
 	vars    map[string]TV
-	resolve func(name string) (TV, bool) // locals at a program point
+	resolve func(name string, st *State) (TV, bool) // locals at a program point, read in state st
 	where   string                       // for error messages
 	depth   int
 }
@@ -247,7 +247,7 @@ func (c *EvalCtx) eval(e Expr) TV {
 			if !ok || c.resolve == nil {
 				c.errf("& needs a local variable")
 			}
-			if v, ok := c.resolve("&" + id.Name); ok {
+			if v, ok := c.resolve("&"+id.Name, c.st); ok {
 				return v
 			}
 			c.errf("%s is not an address-taken local variable here", id.Name)
@@ -277,7 +277,7 @@ func (c *EvalCtx) eval(e Expr) TV {
 			if _, bound := c.vars[id.Name]; !bound {
 				isLocal := false
 				if c.resolve != nil {
-					_, isLocal = c.resolve(id.Name)
+					_, isLocal = c.resolve(id.Name, c.st)
 				}
 				if p := c.enc.ctx.findImport(c.pkg, c.pkgPath, id.Name); p != nil && !isLocal {
 					obj := p.Scope().Lookup(e.Name)
@@ -394,7 +394,7 @@ func (c *EvalCtx) evalIdent(name string) TV {
 		return v
 	}
 	if c.resolve != nil {
-		if v, ok := c.resolve(name); ok {
+		if v, ok := c.resolve(name, c.st); ok {
 			return v
 		}
 	}
@@ -715,9 +715,27 @@ func (c *EvalCtx) evalCall(e *ECall) TV {
 		t2 := fmt.Sprintf("(forall ((%s Int)) (! (=> (and (<= 0 %s) (< %s (s.len %s))) (and (<= 0 (%s %s)) (< (%s %s) (s.len %s)) (= (select %s (at (s.off %s) (%s %s))) (select %s (at (s.off %s) %s))))) :pattern ((select %s (at (s.off %s) %s)))))",
 			qi, qi, qi, x.Term, inv, qi, inv, qi, x.Term, newArr, x.Term, inv, qi, oldArr, x.Term, qi, oldArr, x.Term, qi)
 		t3 := fmt.Sprintf("(forall ((%s Int)) (! (=> (not (= %s (s.arr %s))) (= (select %s %s) (select %s %s))) :pattern ((select %s %s))))", qi, qi, x.Term, nw, qi, od, qi, nw, qi)
-		t4 := fmt.Sprintf("(forall ((%s Int)) (! (=> (and (<= 0 %s) (< %s (s.len %s))) (and (= (%s (%s %s)) %s) (= (%s (%s %s)) %s))) :pattern ((%s %s)) :pattern ((%s %s))))",
-			qi, qi, qi, x.Term, inv, perm, qi, qi, perm, inv, qi, qi, perm, qi, inv, qi)
+		// the permutation of [0,len) is extended to a bijection on Int (identity outside the range),
+		// so the inverse laws hold without a range guard and instantiation chains close at once
+		t4 := fmt.Sprintf("(forall ((%s Int)) (! (and (= (%s (%s %s)) %s) (= (%s (%s %s)) %s)) :pattern ((%s %s)) :pattern ((%s %s))))",
+			qi, inv, perm, qi, qi, perm, inv, qi, qi, perm, qi, inv, qi)
 		return TV{Term: "(and " + t1 + " " + t2 + " " + t3 + " " + t4 + ")", Sort: "Bool", T: boolT}
+	case "sent", "nsent":
+		// sent(c): the last value sent on channel c; nsent(c): how many values were sent on it
+		argn(1)
+		x := c.eval(e.Args[0])
+		var ct *types.Chan
+		if x.T != nil {
+			ct, _ = x.T.Underlying().(*types.Chan)
+		}
+		if ct == nil {
+			c.errf("%s() needs a channel", fname)
+		}
+		hv, hn := s.ChanHeaps(ct.Elem())
+		if fname == "nsent" {
+			return TV{Term: "(select " + c.st.get(hn) + " " + x.Term + ")", Sort: "Int", T: intT}
+		}
+		return TV{Term: "(select " + c.st.get(hv) + " " + x.Term + ")", Sort: s.SortOf(ct.Elem()), T: ct.Elem()}
 	case "allocated":
 		argn(1)
 		x := c.eval(e.Args[0])
